@@ -212,7 +212,9 @@ class MultiOperator(Operator):
 
         self._shape = shape
         self._nshift += op.nshift
-        self.duration += op.duration
+        # out of place, aligned from the first axis like the operator shapes
+        total, duration = common.expand_arrays(self.duration, op.duration, append=True)
+        self.duration = total + duration
 
 
 class CombinableOperator(Operator, abc.ABC):
